@@ -276,11 +276,18 @@ func singleReplica(c *fw.Ctx, idx int) {
 		s := int(atomic.AddInt64(&seq, 1))
 		vseq := fmt.Sprintf("w%d", s)
 		var err error
-		if kind == "pin" {
-			err = rep.cons.LogPin(ctx, mkPin(ci, vseq, rr))
-		} else {
-			err = rep.cons.LogUnpin(ctx, api.PinCid(gen.UCid(ci)))
+		// every second operation comes with a context of its own that ends when the call
+		// returns (a request-scoped context): accepted is accepted
+		octx, ocancel := ctx, func() {}
+		if s%2 == 0 {
+			octx, ocancel = context.WithCancel(ctx)
 		}
+		if kind == "pin" {
+			err = rep.cons.LogPin(octx, mkPin(ci, vseq, rr))
+		} else {
+			err = rep.cons.LogUnpin(octx, api.PinCid(gen.UCid(ci)))
+		}
+		ocancel()
 		mu.Lock()
 		log = append(log, accepted{s, kind, ci, vseq, err, phase})
 		mu.Unlock()
